@@ -1,6 +1,9 @@
 mod exec;
 mod extract;
 mod gen;
+mod oracle;
+mod oracle2;
+mod oracle3;
 fn main() {
     let args: Vec<String> = std::env::args().collect();
     match args.get(1).map(|s| s.as_str()) {
@@ -16,6 +19,15 @@ fn main() {
             for l in gen::gen(&args[2], seed, tier) {
                 writeln!(out, "{}", l).unwrap();
             }
+        }
+        Some("search") => {
+            std::panic::set_hook(Box::new(|_| {}));
+            let seed: u64 = args[3].parse().unwrap();
+            let tier: u32 = args[4].parse().unwrap();
+            let r = oracle3::search(&args[2], seed, tier);
+            let worst: Vec<String> = r.worst.iter().map(|(k, w, b)| format!("{{\"quantity\":\"{}\",\"worst\":{},\"budget\":{}}}", k, if w.is_finite() { format!("{:e}", w) } else { "null".into() }, b)).collect();
+            let fails: Vec<String> = r.fails.iter().map(|f| f.json(&args[2])).collect();
+            println!("{{\"evaluated\":{},\"worst\":[{}],\"fails\":[{}]}}", r.evaluated, worst.join(","), fails.join(","));
         }
         _ => {
             eprintln!("usage: harness extract <repo> <out.lean> <out.json> | run | gen <prop> <seed> <tier>");
